@@ -34,7 +34,10 @@ def valuation(symvals):
                 raise KeyError(f"no value for symbol {c.names[v]}")
             val[v] = mpf(symvals[v]) if not isinstance(symvals[v], mpf) else symvals[v]
         else:
-            val[v] = c.numeric[v](val)
+            try:
+                val[v] = c.numeric[v](val)
+            except ZeroDivisionError:
+                val[v] = mpmath.nan          # undefined at this point (e.g. atan(n/0) under a mask): only fatal if something reads it
     return val
 
 # --------------------------------------------------------------------------
